@@ -414,7 +414,8 @@ func (set *Set) MarkHostHealthy(host *Host) bool {
 	}
 	set.Lock()
 	defer set.Unlock()
-	if _, ok := set.all[host.Addr]; !ok {
+	// the address may have been re-added with another object in the meantime.
+	if cur, ok := set.all[host.Addr]; !ok || cur != host {
 		return false
 	}
 	set.addToHealthy(host)
@@ -428,7 +429,8 @@ func (set *Set) MarkHostUnhealthy(host *Host) bool {
 	}
 	set.Lock()
 	defer set.Unlock()
-	if _, ok := set.all[host.Addr]; !ok {
+	// the address may have been re-added with another object in the meantime.
+	if cur, ok := set.all[host.Addr]; !ok || cur != host {
 		return false
 	}
 	set.removeFromHealthy(host)
